@@ -27,18 +27,18 @@ import (
 	"github.com/M2MGateway/go-smpp/pdu"
 )
 
-// loadedNumbers: what a number-formatting routine may special-case
-func loadedNumbers() []string {
+// c11LoadedNumbers: what a number-formatting routine may special-case
+func c11LoadedNumbers() []string {
 	return []string{"", "0", "00", "000", "0000", "+", "+0", "+00", "00x", "00+", "0+", "001", "0049170", "+49170", "49170", "1", "+1", "++", "+ ",
 		"12345678901234567890", "00000000000000000000", "Bank", "bank", "A", " ", "00 ", "\xc3\xa9", "\xff", "+\xff", "-1", "*100#", "#"}
 }
 
 // numbers every (TON, NPI) pair is combined with in the PDU-level sweep (the direct Address sweep combines every pair with every number)
-func gridNumbers() []string { return []string{"00", "", "+", "0", "+0", "0049170"} }
+func c11GridNumbers() []string { return []string{"00", "", "+", "0", "+0", "0049170"} }
 
-// loadedStrings go into the C-string fields (service type, ids, passwords, date fields …)
-func loadedStrings() []string {
-	return append(loadedNumbers(), "240229235959000+", "991231235959948-", "000000000000000R", "000007000000000R", "999999999999999R",
+// c11LoadedStrings go into the C-string fields (service type, ids, passwords, date fields …)
+func c11LoadedStrings() []string {
+	return append(c11LoadedNumbers(), "240229235959000+", "991231235959948-", "000000000000000R", "000007000000000R", "999999999999999R",
 		"240229235959000", "24022923595900+", "9999", "2402292359590000+", "ABCDEFGHIJKLMNO+", "000000000000000+", "CMT", "WAP", "%s%d%v")
 }
 
@@ -153,8 +153,8 @@ func timeRoutes(s string) (panicked bool, msg string) {
 }
 
 func c11Contents(r *Run, ts []pduType) {
-	nums := loadedNumbers()
-	strs := loadedStrings()
+	nums := c11LoadedNumbers()
+	strs := c11LoadedStrings()
 	// ---- 1. Address, every (TON, NPI) x every loaded number, every text route
 	for ton := 0; ton < 8; ton++ {
 		for npi := 0; npi < 16; npi++ {
@@ -184,7 +184,7 @@ func c11Contents(r *Run, ts []pduType) {
 		a pdu.Address
 	}
 	var combos []combo
-	for _, no := range gridNumbers() {
+	for _, no := range c11GridNumbers() {
 		for ton := 0; ton < 8; ton++ {
 			for npi := 0; npi < 16; npi++ {
 				combos = append(combos, combo{pdu.Address{TON: byte(ton), NPI: byte(npi), No: no}})
